@@ -232,3 +232,254 @@ class GenePointerLoad(Contract):
     def post_raise(self, I, st, exc):
         TranscriptPointerLoad.reads_ok(self, I, st)
         I.e.prove('C11/gene-load/ValueError-only-for-more-than-one-line', st.m > 1 if exc.cls == 'ValueError' else z3.BoolVal(False))
+
+
+# ----------------------------------------------------------------------------
+# reading the two index files of the annotation back into pointers
+# ----------------------------------------------------------------------------
+from . import tables as T11
+
+GAD = 'moPepGen/gtf/GenomicAnnotationOnDisk.py'
+
+
+class _PtrTable11c:
+    def __init__(self, st, kind):
+        self.st, self.kind = st, kind
+
+    def sym_setitem(self, I, key, v):
+        self.st.log.append(('store', self.kind, key, v))
+
+
+@register
+class OnDiskLoadIndex(Contract):
+    """GenomicAnnotationOnDisk.load_index(file, source): the GTF handle is opened on the file; both index files named for it must exist (ValueError
+    otherwise); every line of the gene index that is not a comment becomes exactly one GenePointer - key, start, end from columns 1-3 (numbers read as
+    numbers), the transcripts the parts of column 4 at commas, the given source, the GTF handle - stored under its own key; every such line of the
+    transcript index one TranscriptPointer likewise, with the coding status None / True / False as written in column 4; no line is skipped or read twice"""
+    path, qualname, props = GAD, 'GenomicAnnotationOnDisk.load_index', ('C11',)
+    declared_raises = ['ValueError', 'KeyError']
+    assumptions = ('assumed: every index line has its four tab-separated columns, none empty (to_line writes them so); int() of a column is the number written there',)
+
+    def setup(self, I):
+        st = types.SimpleNamespace(log=[])
+        st.gtab, st.ttab = T11.Table(I, 4, 'gene_index'), T11.Table(I, 4, 'transcript_index')
+        st.gfile, st.tfile = SymObj('IdxFile11c', which='gene'), SymObj('IdxFile11c', which='tx')
+        st.gexists, st.texists = I.e.bool('gene_index_exists'), I.e.bool('transcript_index_exists')
+        st.file, st.source, st.handle = SymObj('GtfFile11c', parent='dir'), SymObj('Source11c'), SymObj('GtfHandle11c')
+        st.anno = SymObj('GenomicAnnotationOnDisk', genes=_PtrTable11c(st, 'gene'), transcripts=_PtrTable11c(st, 'tx'), handle=st.handle)
+        st.args = [st.anno, st.file, st.source]
+        self._cur = st
+        return st
+
+    @property
+    def models(self):
+        c = self
+
+        def inst(reg):
+            L = lambda *x: c._cur.log.append(x)
+            reg.method_('GenomicAnnotationOnDisk', 'init_handle', lambda I, o, a, k: L('init_handle', a[0] if a else None, None, None))
+            reg.method_('GenomicAnnotationOnDisk', 'get_index_files', lambda I, o, a, k: (L('index_files', a[0] if a else None, None, None), (c._cur.gfile, c._cur.tfile))[1])
+            reg.func_(GAD, 'GenomicAnnotationOnDisk.get_index_files', lambda I, a, k: (L('index_files', a[-1] if a else None, None, None), (c._cur.gfile, c._cur.tfile))[1])
+            reg.method_('IdxFile11c', 'exists', lambda I, o, a, k: c._cur.gexists if o.fields['which'] == 'gene' else c._cur.texists)
+
+            def open_(I, a, k):
+                st = c._cur
+                L('open', a[0], a[1] if len(a) > 1 else k.get('mode', 'r'), None)
+                if a[0] is st.gfile:
+                    return st.gtab.file
+                if a[0] is st.tfile:
+                    return st.ttab.file
+                raise Unsupported('another file is opened')
+            reg.ext_('open', open_)
+            reg.ctor_('GenePointer', lambda I, a, k: SymObj('GenePointer11c', args=list(a), **k))
+            reg.ctor_('TranscriptPointer', lambda I, a, k: SymObj('TranscriptPointer11c', args=list(a), **k))
+        return (inst,)
+
+    def head(self, I, env, k):
+        self._cur.mark = len(self._cur.log)
+
+    def mk_step(self, kind):
+        def step(I, env, k):
+            st = self._cur
+            tab = st.gtab if kind == 'gene' else st.ttab
+            new = [x for x in st.log[st.mark:]]
+            if not new:
+                return [('a-line-is-passed-over-only-as-a-comment', tab.comment(T11.zz(k)))]
+            cls = 'GenePointer11c' if kind == 'gene' else 'TranscriptPointer11c'
+            ok = len(new) == 1 and new[0][0] == 'store' and new[0][1] == kind and isinstance(new[0][3], SymObj) and new[0][3].cls == cls
+            if not ok:
+                return [('one-pointer-per-line-stored-in-its-own-table', False)]
+            _, _, key, p = new[0]
+            f = dict(p.fields)
+            pos = f.pop('args')
+            names = ['handle', 'key', 'start', 'end', 'source', 'transcripts' if kind == 'gene' else 'is_protein_coding']
+            f.update(dict(zip(names, pos)))
+            cv = T11.check_value
+            obl = [('a-comment-line-makes-no-pointer', z3.Not(tab.comment(T11.zz(k)))),
+                   ('key-start-end-are-columns-1-to-3-of-this-line', z3.BoolVal(bool(cv(f.get('key'), k, 0, 'text') and cv(f.get('start'), k, 1, 'int') and cv(f.get('end'), k, 2, 'int')))),
+                   ('stored-under-its-own-key', z3.BoolVal(bool(cv(key, k, 0, 'text')))),
+                   ('given-source-and-the-GTF-handle', z3.BoolVal(f.get('source') is st.source and f.get('handle') is st.handle))]
+            if kind == 'gene':
+                obl.append(('transcripts-are-the-parts-of-column-4-at-commas', z3.BoolVal(bool(cv(f.get('transcripts'), k, 3, ('parts', ','))))))
+            else:
+                v = f.get('is_protein_coding', 'missing')
+                col = T11.TField(tab, k, 3)
+                txt = lambda s_: col.sym_eq(I, s_)
+                want = z3.And(txt('None')) if v is None else (txt('True') if v is True else (txt('False') if v is False else z3.BoolVal(False)))
+                obl.append(('coding-status-is-what-column-4-says', want))
+            return obl
+        return step
+
+    @property
+    def loops(self):
+        mk = lambda kind, tab: LoopSpec(inv=lambda I, env, k: [], on_head=self.head, step=self.mk_step(kind), target_after='unknown',
+                                        on_break=lambda I, env, k: [('every-line-is-visited', False)],
+                                        on_exit=lambda I, env, n: [('all-lines-were-visited', n == tab().n)])
+        return {0: mk('gene', lambda: self._cur.gtab), 1: mk('tx', lambda: self._cur.ttab)}
+
+    def post_return(self, I, st, ret):
+        ev = [x for x in st.log if x[0] in ('init_handle', 'index_files', 'open')]
+        ok = [x[0] for x in ev] == ['init_handle', 'index_files', 'open', 'open'] and ev[0][1] is st.file and ev[1][1] is st.file \
+            and ev[2][1] is st.gfile and ev[3][1] is st.tfile and ev[2][2] in ('r', 'rt') and ev[3][2] in ('r', 'rt')
+        I.e.prove('C11/load-index/handle-on-the-file-then-its-two-index-files-read', z3.BoolVal(bool(ok)))
+        I.e.prove('C11/load-index/both-index-files-exist', z3.And(st.gexists, st.texists))
+
+    def post_raise(self, I, st, exc):
+        if exc.cls == 'ValueError':
+            I.e.prove('C11/load-index/ValueError-only-for-a-missing-index-file', z3.Not(z3.And(st.gexists, st.texists)))
+        else:
+            I.e.prove('C11/load-index/KeyError-only-for-a-coding-status-that-is-none-of-None-True-False', z3.BoolVal(exc.cls == 'KeyError'))
+
+
+# ----------------------------------------------------------------------------
+# printing a pointer as a line of the index file (what load_index reads back)
+# ----------------------------------------------------------------------------
+from pyvc import sstr as _sstr
+
+
+class _PointerToLine(Contract):
+    """<Gene|Transcript>Pointer.to_line(): four tab-separated columns - key, start, end printed as decimal numbers, and the transcripts joined with commas
+    (gene) or the coding status printed as None / True / False (transcript): the columns load_index reads back into the same fields"""
+    path, props = GTP, ('C11',)
+    kind = 'gene'
+    status = None
+
+    @property
+    def qualname(self):
+        return ('GenePointer' if self.kind == 'gene' else 'TranscriptPointer') + '.to_line'
+
+    def name(self):
+        return f'{self.path}:{self.qualname}' + ('' if self.kind == 'gene' else f'[{self.status}]')
+
+    @property
+    def models(self):
+        return (lambda reg: _sstr.install(reg),)
+
+    def setup(self, I):
+        e = I.e
+        st = types.SimpleNamespace()
+        st.key = _sstr.Tok('key')
+        st.start, st.end = e.int('start'), e.int('end')
+        e.assume(z3.And(st.start >= 0, st.end > st.start))
+        if self.kind == 'gene':
+            st.txs = [_sstr.Tok('tx1'), _sstr.Tok('tx2')]
+            st.ptr = SymObj('GenePointer', handle=None, key=st.key, start=st.start, end=st.end, source='GENCODE', transcripts=list(st.txs))
+        else:
+            st.ptr = SymObj('TranscriptPointer', handle=None, key=st.key, start=st.start, end=st.end, source='GENCODE', is_protein_coding=self.status)
+        st.args = [st.ptr]
+        self._cur = st
+        return st
+
+    def post_return(self, I, st, ret):
+        cols = _sstr.split(ret, '\t')
+        ok = len(cols) == 4 and cols[0] is st.key
+        num = lambda v, t: isinstance(v, OpaqueStr) and v.parts[:1] == ['str'] and len(v.parts) == 2 and z3.eq(z3.simplify(v.parts[1]), z3.simplify(t))
+        ok = ok and num(cols[1], st.start) and num(cols[2], st.end)
+        if ok and self.kind == 'gene':
+            parts = _sstr.split(cols[3], ',')
+            ok = sorted(map(id, parts)) == sorted(map(id, st.txs)) and len(parts) == 2
+        elif ok:
+            ok = cols[3] == str(self.status)
+        I.e.prove('C11/pointer-line/key-start-end-and-the-fourth-column-tab-separated', z3.BoolVal(bool(ok)))
+
+
+register(type('GenePointerToLine', (_PointerToLine,), dict(kind='gene', __doc__=_PointerToLine.__doc__)))
+for _s in (None, True, False):
+    register(type(f'TranscriptPointerToLine_{_s}', (_PointerToLine,), dict(kind='tx', status=_s, __doc__=_PointerToLine.__doc__)))
+
+
+class _OnDiskGenerateIndex(Contract):
+    """GenomicAnnotationOnDisk.generate_index(handle, source): the GTF handle is initialised on the given file first; every pointer the scanner
+    (iterate_pointer, under its own contract) yields for that handle and source is stored exactly once - a gene pointer in the gene table, a transcript
+    pointer in the transcript table, under its own key; afterwards the source is the given one, or inferred when none was given"""
+    path, qualname, props = GAD, 'GenomicAnnotationOnDisk.generate_index', ('C11',)
+    kind, has_source = 'gene', True
+
+    def name(self):
+        return f'{self.path}:{self.qualname}[{self.kind} pointer, {"given" if self.has_source else "no"} source]'
+
+    def setup(self, I):
+        st = types.SimpleNamespace(log=[])
+        st.n = I.e.int('n_pointers')
+        I.e.assume(st.n >= 0)
+        cls = 'GenePointer' if self.kind == 'gene' else 'TranscriptPointer'
+        st.ptrs = FnView(st.n, lambda i: SymObj(cls, key=SymObj('PtrKey11c', i=zz(i)), i=zz(i)), tag='pointers of the scan')
+        st.file, st.handle = SymObj('GtfFile11c'), SymObj('GtfHandle11c')
+        st.source = SymObj('Source11c') if self.has_source else None
+        st.anno = SymObj('GenomicAnnotationOnDisk', genes=_PtrTable11c(st, 'gene'), transcripts=_PtrTable11c(st, 'tx'), handle=None, source=None)
+        st.args = [st.anno, st.file, st.source]
+        self._cur = st
+        return st
+
+    @property
+    def models(self):
+        c = self
+
+        def inst(reg):
+            L = lambda *x: c._cur.log.append(x)
+
+            def init_handle(I, o, a, k):
+                L('init_handle', a[0] if a else None, None, None)
+                o.fields['handle'] = c._cur.handle
+            reg.method_('GenomicAnnotationOnDisk', 'init_handle', init_handle)
+            reg.method_('GenomicAnnotationOnDisk', 'infer_source', lambda I, o, a, k: L('infer_source', None, None, None))
+
+            def scan(I, a, k):
+                L('scan', a[0] if a else None, a[1] if len(a) > 1 else k.get('source'), None)
+                return c._cur.ptrs
+            reg.func_(GTP, 'iterate_pointer', scan)
+        return (inst,)
+
+    def head(self, I, env, k):
+        self._cur.mark = len(self._cur.log)
+
+    def step(self, I, env, k):
+        st = self._cur
+        new = st.log[st.mark:]
+        ok = len(new) == 1 and new[0][0] == 'store' and isinstance(new[0][3], SymObj) and 'i' in new[0][3].fields and isinstance(new[0][2], SymObj) and new[0][2].cls == 'PtrKey11c'
+        if not ok:
+            return [('pointer-k-stored-once', False)]
+        _, table, key, p = new[0]
+        return [('pointer-k-stored-once-under-its-own-key', z3.And(p.fields['i'] == k, key.fields['i'] == k)),
+                ('in-the-table-of-its-kind', z3.BoolVal(table == self.kind))]
+
+    @property
+    def loops(self):
+        return {0: LoopSpec(inv=lambda I, env, k: [], on_head=self.head, step=self.step, target_after='unknown',
+                            on_break=lambda I, env, k: [('every-pointer-is-visited', False)],
+                            on_exit=lambda I, env, n: [('all-pointers-were-stored', n == self._cur.n)])}
+
+    def post_return(self, I, st, ret):
+        ev = [x for x in st.log if x[0] != 'store']
+        kinds = [x[0] for x in ev]
+        ok = kinds[:2] == ['init_handle', 'scan'] and ev[0][1] is st.file and ev[1][1] is st.handle and ev[1][2] is st.source
+        I.e.prove('C11/generate-index/handle-initialised-on-the-given-file-then-scanned-with-the-given-source', z3.BoolVal(bool(ok)))
+        if self.has_source:
+            I.e.prove('C11/generate-index/the-given-source-is-recorded-and-nothing-inferred', z3.BoolVal(kinds == ['init_handle', 'scan'] and st.anno.fields.get('source') is st.source))
+        else:
+            I.e.prove('C11/generate-index/without-a-source-it-is-inferred-after-the-scan', z3.BoolVal(kinds == ['init_handle', 'scan', 'infer_source']))
+
+
+for _kd in ('gene', 'tx'):
+    for _hs in (True, False):
+        register(type(f'OnDiskGenerateIndex_{_kd}_{_hs}', (_OnDiskGenerateIndex,), dict(kind=_kd, has_source=_hs, __doc__=_OnDiskGenerateIndex.__doc__)))
